@@ -21,7 +21,7 @@ Definition wt_plain (k : skind) (v : pval) : Prop :=
   | KBool, PBool _ => True
   | KString, PStr s => valid_utf8 s = true /\ len_ok s
   | KBytes, PBytes s => len_ok s
-  | KEnum _, PEnum z => - 2 ^ 31 <= z < 2 ^ 31
+  | KEnum _ _, PEnum z => - 2 ^ 31 <= z < 2 ^ 31
   | _, _ => False
   end.
 
